@@ -16,6 +16,7 @@ Inductive hexpr :=
 | HDict (l : list (hexpr * hexpr))
 | HField (obj : positive) (field : string)
 | HFloatInf (neg : bool)
+| HFloatLit (hex : string)                  (* a finite EFloat: its exact value as float.hex() *)
 | HFunc (name : positive) (args : list (option string * hexpr))     (* None: AJust, Some k: AParam k *)
 | HInt (z : Z)
 | HLambda (args : list positive) (body : hexpr)
@@ -78,6 +79,7 @@ Fixpoint strip (float_id : positive) (h : hexpr) {struct h} : expr :=
   | HField o f => EAttr (EName o) f
   | HFloatInf neg =>
       let inf := ECall (EName float_id) [EStr "inf"] [] in if neg then ENeg inf else inf
+  | HFloatLit hex => ECall (EAttr (EName float_id) "fromhex") [EStr hex] []      (* both sides spell a finite float literal as float.fromhex(<exact value>) *)
   | HFunc n args => ECall (EName n) (args_pos args) (args_kw args)
   | HInt z => int_lit z
   | HLambda ps b => ELam ps (strip float_id b)
